@@ -13,6 +13,7 @@ import (
 	"fmt"
 	"io"
 	"os"
+	"path/filepath"
 	"sort"
 	"strings"
 
@@ -58,6 +59,8 @@ func main() {
 	params.TimeToStartTx = 0
 	params.ControllerKickInBlock = 0
 	f := hlib.ParseFlags()
+	scratchDir = filepath.Join(f.Out, "c11_scratch")
+	defer os.RemoveAll(scratchDir)
 	rep = hlib.NewReport("C11", "non-trivial = a crash point (prefix of the logged top-level write sequence of a real append/reorg) whose block(s) change the flat UTXO key space; fingerprint = action kind, phase, recovered head position, consistency verdict, continuation verdicts")
 	cw := hlib.NewCaseWriter(f.Out, "From Coq Require Import List NArith Bool.\nFrom GQ Require Import Model.C11 Generated.C11Gen.\nImport ListNotations.\nLocal Open Scope N_scope.\n", "C11.case", 4)
 	defer func() {
@@ -79,10 +82,46 @@ func main() {
 		runScenario(cw, idx, corpusParams(i), -1)
 		idx++
 	}
+	// the same targeted scenario with every database (reference run and every crash image) on the
+	// real engines: leveldb in quick, leveldb + pebble in thorough (monitors only; the write class
+	// sequence must equal the memorydb run's)
+	backends := []string{"leveldb"}
+	if f.Tier == "thorough" {
+		backends = append(backends, "pebble")
+	}
+	for _, be := range backends {
+		runOnEngine(be, corpusParams(0), f.Tier == "thorough")
+	}
 	n := f.N
 	for i := 0; i < n; i++ {
 		runScenario(cw, idx, randomParams(r), -1)
 		idx++
+	}
+}
+
+// runOnEngine repeats a scenario with all databases on leveldb / pebble and evaluates the monitors
+// at every crash point (no Coq cases: the model comparison is done on the memorydb run).
+func runOnEngine(be string, p scnParams, all bool) {
+	ref, err := buildScenario(p)
+	if err != nil {
+		return // reported by the memorydb run
+	}
+	imgBackend = be
+	defer func() { imgBackend = "mem" }()
+	s, err := buildScenario(p)
+	if err != nil {
+		rep.Fail("backend:"+be+":build-failed", err.Error(), caseJSON{ID: 0, Params: p})
+		return
+	}
+	rep.Count("scenario-on-" + be)
+	for ai, a := range s.Actions {
+		if ai < len(ref.Actions) && strings.Join(classSeq(a.Ops), ",") != strings.Join(classSeq(ref.Actions[ai].Ops), ",") {
+			rep.Fail("backend:write-sequence-differs", "top-level write class sequence on "+be+" differs from memorydb", caseJSON{ID: ai, Params: p, Action: ai})
+		}
+		// quick tier: the append of the first spending block and the reorg; thorough: every action
+		if all || ai == 2 || a.Kind == "reorg" {
+			enumerate(s, a, ai, ai)
+		}
 	}
 }
 
@@ -231,7 +270,7 @@ func touchesFlat(s *scenario, a *action) bool {
 	ids = append(ids, a.Back...)
 	ids = append(ids, a.Fwd...)
 	for _, id := range ids {
-		if len(s.Blocks[id].Eff) > 0 {
+		if len(s.Blocks[id].Created)+len(s.Blocks[id].Spent) > 0 {
 			return true
 		}
 	}
@@ -244,8 +283,15 @@ func enumerate(s *scenario, a *action, cid, ai int) []kObs {
 	for k := 0; k <= len(a.Ops); k++ {
 		phase := phaseOf(a, k)
 		cj := caseJSON{ID: cid, Params: s.P, Action: ai, K: k, Phase: phase}
+		// signature = crash phase + monitor; in the phase "block batch committed, head hash not yet
+		// written" all consistency/continuation monitors share ONE signature (they are facets of the
+		// same state: effects of the child under the parent's head), structural monitors keep theirs
 		fail := func(mon, what string) {
-			rep.Fail("crash:"+phase+":"+mon, fmt.Sprintf("%s (action %s, crash after %d of %d top-level writes)", what, a.Kind, k, len(a.Ops)), cj)
+			sig := "crash:" + phase + ":" + mon
+			if strings.HasSuffix(phase, "after-block-batch-before-head") && mon != "open" && mon != "head" && mon != "state-missing" {
+				sig = "crash:" + phase
+			}
+			rep.Fail(sig, fmt.Sprintf("%s [%s] (action %s, crash after %d of %d top-level writes)", what, mon, a.Kind, k, len(a.Ops)), cj)
 		}
 		rep.Evaluations++
 		rep.Count("phase:" + phase)
@@ -257,6 +303,7 @@ func enumerate(s *scenario, a *action, cid, ai int) []kObs {
 		db := img.open()
 		z, err := openZone(db, 1)
 		if err != nil {
+			db.release()
 			fail("open", "node does not open on the surviving image: "+errClass(err))
 			out = append(out, o)
 			continue
@@ -307,6 +354,7 @@ func enumerate(s *scenario, a *action, cid, ai int) []kObs {
 			}
 		}
 		z.Close()
+		db.release()
 		verdicts = append(verdicts, fmt.Sprintf("cons=%v", cons), fmt.Sprintf("state=%v", o.StateOK))
 
 		// (4) continue: append the interrupted block again / another valid successor
@@ -362,6 +410,7 @@ func continueTo(s *scenario, a *action, img image, tgt int) (res contRes) {
 	res.Target = tgt
 	res.Head = -1
 	db := img.open()
+	defer db.release()
 	z, err := openZone(db, 1)
 	if err != nil {
 		res.err = "open: " + errClass(err)
@@ -422,11 +471,12 @@ func errClass(err error) string {
 
 // ---------- Coq terms ----------
 
-func coqFop(o fop) string {
-	if o.Del {
-		return fmt.Sprintf("FDel %d", o.U)
+func coqKVs(l []kv) string {
+	items := make([]string, len(l))
+	for i, x := range l {
+		items[i] = fmt.Sprintf("(%d,%d)", x.U, x.V)
 	}
-	return fmt.Sprintf("FPut %d %d", o.U, o.V)
+	return hlib.CoqList(items)
 }
 
 func coqFlat(f [][2]int) string {
@@ -456,29 +506,38 @@ func coqCase(s *scenario, a *action, cid int, obs []kObs) string {
 	var bl []string
 	for _, id := range ids {
 		b := s.Blocks[id]
-		var eff []string
-		for _, o := range b.Eff {
-			eff = append(eff, coqFop(o))
-		}
-		bl = append(bl, fmt.Sprintf("mkB %d %d %d %s", b.ID, b.Parent, b.Num, hlib.CoqList(eff)))
+		bl = append(bl, fmt.Sprintf("mkB %d %d %d %s %s", b.ID, b.Parent, b.Num, coqKVs(b.Created), coqKVs(b.Spent)))
 	}
 	var seq []string
 	for _, t := range a.Ops {
 		seq = append(seq, coqOpClass(opClass(t)))
 	}
+	// table of distinct flat contents
+	var table []string
+	tidx := map[string]int{}
+	flatIdx := func(f [][2]int) int {
+		t := coqFlat(f)
+		if i, ok := tidx[t]; ok {
+			return i
+		}
+		tidx[t] = len(table)
+		table = append(table, t)
+		return len(table) - 1
+	}
 	var ko []string
 	for _, o := range obs {
 		var cs []string
 		for _, c := range o.Conts {
-			cs = append(cs, fmt.Sprintf("(%d,%s,%s)", c.Target, coqHead(c.Head), coqFlat(c.Flat)))
+			cs = append(cs, fmt.Sprintf("(%d,%s,%d)", c.Target, coqHead(c.Head), flatIdx(c.Flat)))
 		}
-		ko = append(ko, fmt.Sprintf("mkObs %d %s %s %s %s", o.K, coqHead(o.Head), coqFlat(o.Flat), hlib.CoqBool(o.StateOK), hlib.CoqList(cs)))
+		ko = append(ko, fmt.Sprintf("mkObs %d %s %d %s %s", o.K, coqHead(o.Head), flatIdx(o.Flat), hlib.CoqBool(o.StateOK), hlib.CoqList(cs)))
 	}
 	kind := "AAppend"
 	if a.Kind == "reorg" {
 		kind = "AReorg"
 	}
-	return fmt.Sprintf("mkCase %d head_in_batch\n %s\n %s (%s %d)\n %s\n %s", cid, hlib.CoqList(bl), coqIDs(a.Base), kind, a.Target, hlib.CoqList(seq), "["+strings.Join(ko, ";\n  ")+"]")
+	return fmt.Sprintf("mkCase %d head_in_batch\n %s\n %s (%s %d)\n %s\n %s\n %s", cid, hlib.CoqList(bl), coqIDs(a.Base), kind, a.Target, hlib.CoqList(seq),
+		"["+strings.Join(table, ";\n  ")+"]", "["+strings.Join(ko, ";\n  ")+"]")
 }
 
 func coqHead(h int) string {
